@@ -97,7 +97,7 @@ def run(tier):
             os.remove(script)
 
     # ---- T: boundary families of all widths + seeded random values far outside the model's bounds
-    cases = 20000 if quick else int(os.environ.get("C13_CASES", "400000"))
+    cases = 20000 if quick else int(os.environ.get("C13_CASES", "500000"))
     allseen = set()
     k, ci = 0, 0
     while k < cases:
